@@ -24,7 +24,7 @@ REAL_VS_STUB = {"real": ["gen_params end to end incl. load_ff_library, parsers, 
                          "polyply DATA_PATH redirected to a scratch directory for generated libraries"]}
 PROBES = ["dim_hash", "dim_repeat", "dim_fileorder", "dim_listdir", "dim_relabel", "dim_history", "lib_family",
           "history_with_failed_call", "protein_family_with_terminal_modifications",
-          "linktype_family", "replace_link_family"]
+          "linktype_family", "replace_link_family", "multi_residue_block_family"]
 
 
 def n_runs(tier):
@@ -104,7 +104,8 @@ def gen_job(verif_seed, tier, index):
     # library directory + listdir permutations
     for _ in range(g.randint(0, 2)):
         op = dict(base)
-        op["files"] = [("libs/genlib/" + fn, txt) for fn, txt in base["files"]]
+        # a library directory is read flat: same-named files in sub-directories get distinct flat names here
+        op["files"] = [("libs/genlib/" + fn.replace("/", "_"), txt) for fn, txt in base["files"]]
         op["inpath_none"] = True
         op["data_path"] = "libs"
         op["lib"] = ["genlib"]
@@ -119,15 +120,31 @@ def gen_job(verif_seed, tier, index):
                                                                  edge_order=_perm(e, len(rg["edges"])),
                                                                  flip=[i for i in range(len(rg["edges"])) if e.random() < 0.5])}
         members.append({"dim": "relabel", "hashseed": e.choice(histgen.PALETTE), "ops": [op], "observe": 0})
-    if rg["shape"] == "linear" and not rg.get("edge_attrs") and not rg.get("tags"):
+    if rg["shape"] == "linear" and not rg.get("edge_attrs") and not rg.get("tags") and not rg.get("from_itp") \
+            and rg.get("resid_start") is None:
         op = dict(base)
         op["graph"] = {"kind": "seq", "seq": ffgen.seq_list(rg)}
         members.append({"dim": "relabel", "hashseed": e.choice(histgen.PALETTE), "ops": [op], "observe": 0})
+    if ff.get("multires") and rg.get("from_itp") and len(ff["blocks"][ff["multires"]["comp"][0]]["atoms"]) >= 2:
+        # earlier call in the process whose building block has the same name and number of atoms but is divided into
+        # residues differently
+        import copy
+        ff2 = copy.deepcopy(ff)
+        ff2["multires"]["split_first"] = True
+        rg2 = ffgen.gen_resgraph(random_like(g), ff2)
+        if rg2.get("from_itp"):
+            members.append({"dim": "history", "hashseed": e.choice(histgen.PALETTE),
+                            "ops": [histgen.make_op(ff2, rg2, g, out="h.itp", graph_kind="json"), base], "observe": 1})
     # history
     for _ in range(g.randint(1, 2)):
         hist = _history(g, ff, rg)
         members.append({"dim": "history", "hashseed": e.choice(histgen.PALETTE), "ops": hist + [base], "observe": len(hist)})
     return {"index": index, "run_seed": seed, "members": members, "lib": False}
+
+
+def random_like(g):
+    import random
+    return random.Random(g.getrandbits(48))
 
 
 def _history(g, ff, rg):
@@ -219,6 +236,8 @@ def run_job(job):
             probes["linktype_family"] = 1
         if '"replace"' in txt:
             probes["replace_link_family"] = 1
+        if (job["members"][0]["ops"][0].get("resgraph") or {}).get("from_itp"):
+            probes["multi_residue_block_family"] = 1
     if job.get("protein"):
         probes["protein_family_with_terminal_modifications"] = 1
     digest = h.hexdigest()[:24]
